@@ -546,7 +546,9 @@ Proof.
         unfold is_final. replace (nread <? 0) with false by (symmetry; apply Z.ltb_ge; lia). reflexivity. }
       { unfold s2. inv_tac. fin. }
       destruct (call_read_cb E s2 nread (Some id) (pos (bump_alloc s)) nread) as [s3 evs]; cbn in *.
-      destruct (nread <? b_len b); cbn; exists m'; (split; [rewrite Hcap, Z.eqb_refl; assumption|]).
+      destruct (nread <? b_len b); [destruct (is_pipe s3)|]; cbn; exists m';
+        (split; [rewrite Hcap, Z.eqb_refl; assumption|]).
+      * exact H'.
       * unfold RelA, Inv in *; cbn. exact H'.
       * exact H'.
 Qed.
@@ -820,13 +822,24 @@ Proof.
   - split; [discriminate|assumption].
 Qed.
 
+Lemma call_read_cb_pipe E s nread buf off len :
+  is_pipe (fst (call_read_cb E s nread buf off len)) = is_pipe s.
+Proof.
+  unfold call_read_cb. destruct (rcb s); [|reflexivity].
+  pose proof (cops_frame (bump_cb s) (beh E (ncb s))) as Hf.
+  destruct (cops (bump_cb s) (beh E (ncb s))) as [s1 evs]; cbn in *.
+  destruct Hf as (_ & _ & _ & _ & _ & _ & Hp). exact Hp.
+Qed.
+
 Lemma call_read_cb_B strict E s m nread buf off len :
   (nread = UV_EOF -> k_fin m = true) ->
   let '(s', evs) := call_read_cb E s nread buf off len in
-  runB strict m evs = m /\ eof_ok strict m evs /\ oracle s' = oracle s /\ partial s' = partial s.
+  runB strict m evs = m /\ eof_ok strict m evs /\ oracle s' = oracle s /\ partial s' = partial s /\
+  is_pipe s' = is_pipe s.
 Proof.
   intros Hn. pose proof (call_read_cb_shape E s nread buf off len) as H.
-  destruct (call_read_cb E s nread buf off len) as [s' evs].
+  pose proof (call_read_cb_pipe E s nread buf off len) as Hpp.
+  destruct (call_read_cb E s nread buf off len) as [s' evs]. cbn [fst] in Hpp.
   destruct H as (_ & Ho & Hp & _ & H).
   destruct (rcb s) as [tok|].
   - destruct H as (rets & -> & Hq). destruct (rets_B strict m rets Hq) as [Hr He].
@@ -837,7 +850,8 @@ Qed.
 Lemma stream_eof_B strict E s m buf :
   k_fin m = true ->
   let '(s', evs) := stream_eof E s buf in
-  runB strict m evs = m /\ eof_ok strict m evs /\ oracle s' = oracle s /\ partial s' = partial s.
+  runB strict m evs = m /\ eof_ok strict m evs /\ oracle s' = oracle s /\ partial s' = partial s /\
+  is_pipe s' = is_pipe s.
 Proof.
   intros Hf. unfold stream_eof.
   match goal with |- context [call_read_cb E ?s1 _ _ _ _] =>
@@ -849,105 +863,112 @@ Qed.
 (* facts about one step of the chain, m' being the kernel-side state afterwards *)
 Definition stepB_ok (s s' : st) (m m' : monB) : Prop :=
   k_hup m' = k_hup m /\ (k_fin m = true -> k_fin m' = true) /\
-  Forall errno_ok (oracle s').
+  Forall errno_ok (oracle s') /\ is_pipe s' = is_pipe s.
 
-Lemma uv_eof_neq_enobufs : UV_ENOBUFS = UV_EOF -> False. Proof. discriminate. Qed.
-
-Lemma read_iter_B E s m :
+(* The chain is proved for [strict] = true on any stream and for [strict] = false on
+   pipes: there READ_PARTIAL is never set (commit 34f0ffa), so the short-cut is dead. *)
+Lemma read_iter_B strict E s m :
+  strict = true \/ is_pipe s = true ->
   Forall errno_ok (oracle s) ->
   let '(s', evs, go) := read_iter E s in
-  eof_ok true m evs /\ stepB_ok s s' m (runB true m evs) /\
-  (partial s' = true -> partial s = true \/ (k_hup m = true -> k_fin (runB true m evs) = true)).
+  eof_ok strict m evs /\ stepB_ok s s' m (runB strict m evs) /\
+  (partial s' = true -> partial s = true \/ (k_hup m = true -> k_fin (runB strict m evs) = true)).
 Proof.
-  intros Ho. unfold read_iter, stepB_ok.
+  intros Hsp Ho. unfold read_iter, stepB_ok.
   set (b := allocs E (nalloc s)).
   destruct (refuses b) eqn:Hrf.
-  - pose proof (call_read_cb_B true E (bump_alloc s) m UV_ENOBUFS (Some (nalloc s)) 0 0) as H.
+  - pose proof (call_read_cb_B strict E (bump_alloc s) m UV_ENOBUFS (Some (nalloc s)) 0 0) as H.
     destruct (call_read_cb E (bump_alloc s) UV_ENOBUFS (Some (nalloc s)) 0 0) as [s2 evs].
-    destruct H as (Hr & He & Hor & Hp); [intros Hx; discriminate Hx|].
-    cbn [eof_ok runB fold_left kstep]. fold (runB true m evs). rewrite Hr.
-    cbn in Hor, Hp. rewrite Hor, Hp. repeat split; auto.
+    destruct H as (Hr & He & Hor & Hp & Hpp); [intros Hx; discriminate Hx|].
+    cbn [eof_ok runB fold_left kstep]. fold (runB strict m evs). rewrite Hr.
+    cbn in Hor, Hp, Hpp. rewrite Hor, Hp, Hpp. repeat split; auto.
   - cbn [oracle bump_alloc].
     pose proof (sys_read_ok (oracle s) Ho) as [Ha Ho'].
     destruct (sys_read (oracle s)) as [a o']. cbn [fst snd] in Ha, Ho'.
     destruct a as [| | |e|n].
     + destruct (reading (set_kernel (bump_alloc s) (pos (bump_alloc s)) o'));
       (match goal with |- context [call_read_cb E ?s3 0 ?bf 0 0] =>
-         pose proof (call_read_cb_B true E s3 m 0 bf 0 0) as H;
+         pose proof (call_read_cb_B strict E s3 m 0 bf 0 0) as H;
          destruct (call_read_cb E s3 0 bf 0 0) as [s4 evs] end;
-       destruct H as (Hr & He & Hor & Hp); [intros Hx; discriminate Hx|];
-       cbn [eof_ok runB fold_left kstep]; fold (runB true m evs); rewrite Hr;
-       cbn in Hor, Hp; rewrite Hor, Hp; repeat split; auto).
+       destruct H as (Hr & He & Hor & Hp & Hpp); [intros Hx; discriminate Hx|];
+       cbn [eof_ok runB fold_left kstep]; fold (runB strict m evs); rewrite Hr;
+       cbn in Hor, Hp, Hpp; rewrite Hor, Hp, Hpp; repeat split; auto).
     + destruct (reading (set_kernel (bump_alloc s) (pos (bump_alloc s)) o'));
       (match goal with |- context [call_read_cb E ?s3 0 ?bf 0 0] =>
-         pose proof (call_read_cb_B true E s3 m 0 bf 0 0) as H;
+         pose proof (call_read_cb_B strict E s3 m 0 bf 0 0) as H;
          destruct (call_read_cb E s3 0 bf 0 0) as [s4 evs] end;
-       destruct H as (Hr & He & Hor & Hp); [intros Hx; discriminate Hx|];
-       cbn [eof_ok runB fold_left kstep]; fold (runB true m evs); rewrite Hr;
-       cbn in Hor, Hp; rewrite Hor, Hp; repeat split; auto).
+       destruct H as (Hr & He & Hor & Hp & Hpp); [intros Hx; discriminate Hx|];
+       cbn [eof_ok runB fold_left kstep]; fold (runB strict m evs); rewrite Hr;
+       cbn in Hor, Hp, Hpp; rewrite Hor, Hp, Hpp; repeat split; auto).
     + (* Eof *)
       match goal with |- context [stream_eof E ?s2 ?bf] =>
-        pose proof (stream_eof_B true E s2 (mkB (k_hup m) true) bf eq_refl) as H;
+        pose proof (stream_eof_B strict E s2 (mkB (k_hup m) true) bf eq_refl) as H;
         destruct (stream_eof E s2 bf) as [s3 evs] end.
-      destruct H as (Hr & He & Hor & Hp).
-      cbn [eof_ok runB fold_left kstep]. fold (runB true (mkB (k_hup m) true) evs). rewrite Hr.
-      cbn in Hor, Hp. rewrite Hor, Hp. cbn. repeat split; auto.
+      destruct H as (Hr & He & Hor & Hp & Hpp).
+      cbn [eof_ok runB fold_left kstep]. fold (runB strict (mkB (k_hup m) true) evs). rewrite Hr.
+      cbn in Hor, Hp, Hpp. rewrite Hor, Hp, Hpp. cbn. repeat split; auto.
     + (* Err e *)
       match goal with |- context [call_read_cb E ?s2 (Zneg e) ?bf 0 0] =>
-        pose proof (call_read_cb_B true E s2 m (Zneg e) bf 0 0) as H;
+        pose proof (call_read_cb_B strict E s2 m (Zneg e) bf 0 0) as H;
         destruct (call_read_cb E s2 (Zneg e) bf 0 0) as [s3 evs] end.
-      destruct H as (Hr & He & Hor & Hp).
+      destruct H as (Hr & He & Hor & Hp & Hpp).
       { intros Hx. exfalso. apply Ha. unfold UV_EOF in Hx. inversion Hx. reflexivity. }
-      cbn [eof_ok runB fold_left kstep]. fold (runB true m evs). rewrite Hr.
-      cbn in Hor, Hp.
+      cbn [eof_ok runB fold_left kstep]. fold (runB strict m evs). rewrite Hr.
+      cbn in Hor, Hp, Hpp.
       assert (Hs4 : oracle (if reading s3 then stop_reading s3 else s3) = o' /\
-                    partial (if reading s3 then stop_reading s3 else s3) = partial s).
-      { destruct (reading s3); cbn; split; assumption. }
-      destruct Hs4 as [-> ->]. repeat split; auto.
+                    partial (if reading s3 then stop_reading s3 else s3) = partial s /\
+                    is_pipe (if reading s3 then stop_reading s3 else s3) = is_pipe s).
+      { destruct (reading s3); cbn; repeat split; assumption. }
+      destruct Hs4 as (-> & -> & ->). repeat split; auto.
     + (* Data *)
       set (nread := Z.max 1 (Z.min n (b_len b))).
       assert (Hne : nread = UV_EOF -> False) by (unfold nread, UV_EOF; lia).
       destruct (nread <? b_len b) eqn:Hshort.
-      * set (m1 := mkB (k_hup m) (k_fin m || (true && k_hup m && true))).
+      * set (m1 := mkB (k_hup m) (k_fin m || (strict && k_hup m && true))).
         match goal with |- context [call_read_cb E ?s2 nread ?bf ?off nread] =>
-          pose proof (call_read_cb_B true E s2 m1 nread bf off nread) as H;
+          pose proof (call_read_cb_B strict E s2 m1 nread bf off nread) as H;
           destruct (call_read_cb E s2 nread bf off nread) as [s3 evs] end.
-        destruct H as (Hr & He & Hor & Hp); [intros Hx; destruct (Hne Hx)|].
-        cbn in Hor, Hp.
-        cbn [eof_ok runB fold_left kstep]. rewrite Hshort. fold m1. fold (runB true m1 evs).
-        rewrite Hr. cbn [k_hup k_fin partial set_partial set_flags oracle]. rewrite Hor.
-        repeat split; auto.
-        -- unfold m1; cbn. intros ->. reflexivity.
-        -- intros _. right. intros Hh. unfold m1; cbn. rewrite Hh. cbn. apply orb_true_r.
-      * set (m1 := mkB (k_hup m) (k_fin m || (true && k_hup m && false))).
+        destruct H as (Hr & He & Hor & Hp & Hpp); [intros Hx; destruct (Hne Hx)|].
+        cbn in Hor, Hp, Hpp.
+        assert (Hfm : k_fin m = true -> k_fin m1 = true) by (unfold m1; cbn; intros ->; reflexivity).
+        destruct (is_pipe s3) eqn:Hp3;
+          cbn [eof_ok runB fold_left kstep]; rewrite Hshort; fold m1; fold (runB strict m1 evs);
+          rewrite Hr; cbn [partial set_partial set_flags oracle is_pipe]; rewrite ?Hor.
+        -- repeat split; auto. intros Hx. left. congruence.
+        -- assert (strict = true) by (destruct Hsp as [Hx|Hx]; [exact Hx|congruence]). subst strict.
+           repeat split; auto.
+           intros _. right. intros Hh. unfold m1; cbn. rewrite Hh. cbn. apply orb_true_r.
+      * set (m1 := mkB (k_hup m) (k_fin m || (strict && k_hup m && false))).
         match goal with |- context [call_read_cb E ?s2 nread ?bf ?off nread] =>
-          pose proof (call_read_cb_B true E s2 m1 nread bf off nread) as H;
+          pose proof (call_read_cb_B strict E s2 m1 nread bf off nread) as H;
           destruct (call_read_cb E s2 nread bf off nread) as [s3 evs] end.
-        destruct H as (Hr & He & Hor & Hp); [intros Hx; destruct (Hne Hx)|].
-        cbn in Hor, Hp.
-        cbn [eof_ok runB fold_left kstep]. rewrite Hshort. fold m1. fold (runB true m1 evs).
-        rewrite Hr. cbn [k_hup k_fin]. rewrite Hor, Hp.
+        destruct H as (Hr & He & Hor & Hp & Hpp); [intros Hx; destruct (Hne Hx)|].
+        cbn in Hor, Hp, Hpp.
+        cbn [eof_ok runB fold_left kstep]. rewrite Hshort. fold m1. fold (runB strict m1 evs).
+        rewrite Hr. cbn [k_hup k_fin]. rewrite Hor, Hp, Hpp.
         repeat split; auto.
         unfold m1; cbn. intros ->. reflexivity.
 Qed.
 
-Lemma read_loop_B E c : forall s m,
+Lemma read_loop_B strict E c : forall s m,
+  strict = true \/ is_pipe s = true ->
   Forall errno_ok (oracle s) ->
   let '(s', evs) := read_loop E c s in
-  eof_ok true m evs /\ stepB_ok s s' m (runB true m evs) /\
-  (partial s' = true -> partial s = true \/ (k_hup m = true -> k_fin (runB true m evs) = true)).
+  eof_ok strict m evs /\ stepB_ok s s' m (runB strict m evs) /\
+  (partial s' = true -> partial s = true \/ (k_hup m = true -> k_fin (runB strict m evs) = true)).
 Proof.
-  induction c as [|c IH]; intros s m Ho; cbn [read_loop].
+  induction c as [|c IH]; intros s m Hsp Ho; cbn [read_loop].
   - cbn. unfold stepB_ok. repeat split; auto.
   - destruct (loop_cond s); cbn [negb].
     2:{ cbn. unfold stepB_ok. repeat split; auto. }
-    pose proof (read_iter_B E s m Ho) as H1.
-    destruct (read_iter E s) as [[s1 e1] go]. destruct H1 as (He1 & (Hh1 & Hf1 & Ho1) & Hp1).
+    pose proof (read_iter_B strict E s m Hsp Ho) as H1.
+    destruct (read_iter E s) as [[s1 e1] go]. destruct H1 as (He1 & (Hh1 & Hf1 & Ho1 & Hq1) & Hp1).
     destruct go; [|unfold stepB_ok; repeat split; auto].
-    specialize (IH s1 (runB true m e1) Ho1).
-    destruct (read_loop E c s1) as [s2 e2]. destruct IH as (He2 & (Hh2 & Hf2 & Ho2) & Hp2).
+    assert (Hsp1 : strict = true \/ is_pipe s1 = true) by (rewrite Hq1; exact Hsp).
+    specialize (IH s1 (runB strict m e1) Hsp1 Ho1).
+    destruct (read_loop E c s1) as [s2 e2]. destruct IH as (He2 & (Hh2 & Hf2 & Ho2 & Hq2) & Hp2).
     rewrite runB_app. split; [apply eof_ok_app; assumption|].
-    split; [unfold stepB_ok; repeat split; [congruence|auto|assumption]|].
+    split; [unfold stepB_ok; repeat split; [congruence|auto|assumption|congruence]|].
     intros Hp. destruct (Hp2 Hp) as [Hx|Hx].
     + destruct (Hp1 Hx) as [Hy|Hy]; [left; assumption|right; intros Hh; auto].
     + right. intros Hh. apply Hx. congruence.
@@ -961,17 +982,18 @@ Proof.
   rewrite H. reflexivity.
 Qed.
 
-Lemma stream_io_B E s m ev :
+Lemma stream_io_B strict E s m ev :
+  strict = true \/ is_pipe s = true ->
   Forall errno_ok (oracle s) -> k_hup m = has ev POLLHUP ->
   let '(s', evs) := stream_io E s ev in
-  eof_ok true m evs /\ stepB_ok s s' m (runB true m evs).
+  eof_ok strict m evs /\ stepB_ok s s' m (runB strict m evs).
 Proof.
-  intros Ho Hh. unfold stream_io.
+  intros Hsp Ho Hh. unfold stream_io.
   assert (H1 : let '(s1, e1) := (if has ev (Z.lor POLLIN (Z.lor POLLERR POLLHUP)) then uv_read E s else (s, [])) in
-     eof_ok true m e1 /\ stepB_ok s s1 m (runB true m e1) /\
-     (partial s1 = true -> has ev POLLHUP = true -> k_fin (runB true m e1) = true)).
+     eof_ok strict m e1 /\ stepB_ok s s1 m (runB strict m e1) /\
+     (partial s1 = true -> has ev POLLHUP = true -> k_fin (runB strict m e1) = true)).
   { destruct (has ev (Z.lor POLLIN (Z.lor POLLERR POLLHUP))) eqn:Hany.
-    - unfold uv_read. pose proof (read_loop_B E 32 (set_partial s false) m Ho) as H.
+    - unfold uv_read. pose proof (read_loop_B strict E 32 (set_partial s false) m Hsp Ho) as H.
       destruct (read_loop E 32 (set_partial s false)) as [s1 e1]. destruct H as (He & Hs & Hp).
       split; [assumption|]. split; [exact Hs|].
       intros Hp1 Hhup. destruct (Hp Hp1) as [Hx|Hx]; [cbn in Hx; discriminate|].
@@ -979,17 +1001,17 @@ Proof.
     - cbn. unfold stepB_ok. repeat split; auto.
       intros _ Hhup. rewrite (has_sub ev Hany) in Hhup. discriminate. }
   destruct (if has ev (Z.lor POLLIN (Z.lor POLLERR POLLHUP)) then uv_read E s else (s, [])) as [s1 e1].
-  destruct H1 as (He1 & (Hh1 & Hf1 & Ho1) & Hp1).
+  destruct H1 as (He1 & (Hh1 & Hf1 & Ho1 & Hq1) & Hp1).
   destruct (closing s1); [split; [assumption|unfold stepB_ok; auto]|].
   destruct (has ev POLLHUP && reading s1 && partial s1 && negb (eof s1)) eqn:Hcond;
     [|split; [assumption|unfold stepB_ok; auto]].
   apply andb_true_iff in Hcond. destruct Hcond as [Hcond _].
   apply andb_true_iff in Hcond. destruct Hcond as [Hcond Hpar].
   apply andb_true_iff in Hcond. destruct Hcond as [Hhup _].
-  pose proof (stream_eof_B true E s1 (runB true m e1) None (Hp1 Hpar Hhup)) as H2.
-  destruct (stream_eof E s1 None) as [s2 e2]. destruct H2 as (Hr2 & He2 & Hor2 & _).
+  pose proof (stream_eof_B strict E s1 (runB strict m e1) None (Hp1 Hpar Hhup)) as H2.
+  destruct (stream_eof E s1 None) as [s2 e2]. destruct H2 as (Hr2 & He2 & Hor2 & _ & Hq2).
   rewrite runB_app, Hr2. split; [apply eof_ok_app; assumption|].
-  unfold stepB_ok. rewrite Hor2. auto.
+  unfold stepB_ok. rewrite Hor2, Hq2. auto.
 Qed.
 
 Lemma has_hup_filter raw : has (Z.land raw (Z.lor POLLIN (Z.lor POLLERR POLLHUP))) POLLHUP = has raw POLLHUP.
@@ -1004,18 +1026,19 @@ Proof.
   rewrite Z.land_lor_distr_l, Hk, Z.lor_0_r. reflexivity.
 Qed.
 
-Lemma io_poll_B E s m raw :
+Lemma io_poll_B strict E s m raw :
+  strict = true \/ is_pipe s = true ->
   Forall errno_ok (oracle s) -> k_hup m = has raw POLLHUP ->
   let '(s', evs) := io_poll E s raw in
-  eof_ok true m evs /\ stepB_ok s s' m (runB true m evs).
+  eof_ok strict m evs /\ stepB_ok s s' m (runB strict m evs).
 Proof.
-  intros Ho Hh. unfold io_poll.
-  assert (Hnop : eof_ok true m [] /\ stepB_ok s s m (runB true m []))
+  intros Hsp Ho Hh. unfold io_poll.
+  assert (Hnop : eof_ok strict m [] /\ stepB_ok s s m (runB strict m []))
     by (cbn; unfold stepB_ok; auto).
   destruct (raw =? 0); [exact Hnop|].
   destruct (negb (pollin s)); [exact Hnop|].
   match goal with |- context [if ?c =? 0 then _ else stream_io E s ?p] =>
-    destruct (c =? 0); [exact Hnop|]; apply (stream_io_B E s m p Ho) end.
+    destruct (c =? 0); [exact Hnop|]; apply (stream_io_B strict E s m p Hsp Ho) end.
   rewrite Hh.
   destruct ((Z.land raw (Z.lor POLLIN (Z.lor POLLERR POLLHUP)) =? POLLERR)
             || (Z.land raw (Z.lor POLLIN (Z.lor POLLERR POLLHUP)) =? POLLHUP)).
@@ -1029,36 +1052,39 @@ Proof.
   rewrite H. reflexivity.
 Qed.
 
-Lemma op_run_B E s m o :
+Lemma op_run_B strict E s m o :
+  strict = true \/ is_pipe s = true ->
   Forall errno_ok (oracle s) ->
   let '(s', evs) := op_run E s o in
-  eof_ok true m evs /\ Forall errno_ok (oracle s').
+  eof_ok strict m evs /\ Forall errno_ok (oracle s') /\ is_pipe s' = is_pipe s.
 Proof.
-  intros Ho.
+  intros Hsp Ho.
   assert (Hcop : forall c, let '(s', evs) := cop_run s c in
-            eof_ok true m evs /\ Forall errno_ok (oracle s')).
+            eof_ok strict m evs /\ Forall errno_ok (oracle s') /\ is_pipe s' = is_pipe s).
   { intros c. pose proof (cop_run_rets s c) as Hq. pose proof (cop_run_frame s c) as Hf.
     destruct (cop_run s c) as [s' evs]; cbn in *.
-    destruct (rets_B true m evs Hq) as [_ He]. destruct Hf as (_ & Hor & _).
-    split; [assumption|]. rewrite Hor. assumption. }
+    destruct (rets_B strict m evs Hq) as [_ He]. destruct Hf as (_ & Hor & _ & _ & _ & _ & Hpp).
+    split; [assumption|]. rewrite Hor. split; assumption. }
   destruct o as [tok| | |raw]; cbn [op_run]; try apply Hcop.
   unfold run_once.
-  pose proof (io_poll_B E s (mkB (has raw POLLHUP) (k_fin m)) raw Ho eq_refl) as H.
-  destruct (io_poll E s raw) as [s1 e1]. destruct H as (He & _ & _ & Ho1).
-  destruct (closing s1 && negb (closed s1)); cbn [eof_ok kstep oracle set_closed].
-  - split; [|assumption]. split; [exact I|].
+  pose proof (io_poll_B strict E s (mkB (has raw POLLHUP) (k_fin m)) raw Hsp Ho eq_refl) as H.
+  destruct (io_poll E s raw) as [s1 e1]. destruct H as (He & _ & _ & Ho1 & Hq1).
+  destruct (closing s1 && negb (closed s1)); cbn [eof_ok kstep oracle set_closed is_pipe].
+  - split; [|split; assumption]. split; [exact I|].
     apply eof_ok_app; [assumption|]. cbn. auto.
-  - split; [|assumption]. split; [exact I|assumption].
+  - split; [|split; assumption]. split; [exact I|assumption].
 Qed.
 
-Lemma exec_B E os : forall s m,
-  Forall errno_ok (oracle s) -> eof_ok true m (snd (exec E s os)).
+Lemma exec_B strict E os : forall s m,
+  strict = true \/ is_pipe s = true ->
+  Forall errno_ok (oracle s) -> eof_ok strict m (snd (exec E s os)).
 Proof.
-  induction os as [|o os IH]; intros s m Ho; cbn; [exact I|].
-  pose proof (op_run_B E s m o Ho) as H.
-  destruct (op_run E s o) as [s1 e1]. destruct H as [He Ho1].
+  induction os as [|o os IH]; intros s m Hsp Ho; cbn; [exact I|].
+  pose proof (op_run_B strict E s m o Hsp Ho) as H.
+  destruct (op_run E s o) as [s1 e1]. destruct H as (He & Ho1 & Hq1).
+  assert (Hsp1 : strict = true \/ is_pipe s1 = true) by (rewrite Hq1; exact Hsp).
   specialize (IH s1). destruct (exec E s1 os) as [s2 e2]; cbn in *.
-  apply eof_ok_app; [assumption|]. cbn. split; [exact I|]. apply IH. assumption.
+  apply eof_ok_app; [assumption|]. cbn. split; [exact I|]. apply IH; assumption.
 Qed.
 
 Lemma fin_no_data strict tr : forall m,
@@ -1081,16 +1107,29 @@ Proof.
     + exact (IH _ He2 Hk2 pre post tok buf off len eq_refl).
 Qed.
 
+(* any stream, with the "short read under EPOLLHUP = empty buffer" hypothesis *)
 Theorem eof_once_after_data E pipe is_ipc o ops :
   Forall errno_ok o ->
   let tr := snd (exec E (init pipe is_ipc o) ops) in
   kernel_ok true monB0 tr -> eof_after_all_data tr.
 Proof.
   intros Ho tr Hk. apply (eof_ok_data true tr monB0); [|assumption].
-  apply exec_B. exact Ho.
+  apply exec_B; [left; reflexivity|exact Ho].
 Qed.
 
-(* ---- the refutation: without "short read = empty buffer" ---- *)
+(* pipes (ipc or not): without it *)
+Theorem eof_once_after_data_pipe E is_ipc o ops :
+  Forall errno_ok o ->
+  let tr := snd (exec E (init true is_ipc o) ops) in
+  kernel_ok false monB0 tr -> eof_after_all_data tr.
+Proof.
+  intros Ho tr Hk. apply (eof_ok_data false tr monB0); [|assumption].
+  apply exec_B; [right; reflexivity|exact Ho].
+Qed.
+
+(* ---- without "short read = empty buffer" the short-cut is unsound: history of
+   item 20 (pipes behaved like this before commit 34f0ffa) and the reason the
+   hypothesis stays for non-pipe streams ---- *)
 
 Lemma eof_after_all_data_tail e tr : eof_after_all_data (e :: tr) -> eof_after_all_data tr.
 Proof.
@@ -1117,8 +1156,8 @@ Definition wit_env : env := mkEnv (fun _ => mkBuf true 65536) (fun _ => []).
 Definition wit_oracle : list ans := [Data 1; Data 4; Eof].
 Definition wit_ops : list op := [OStart 1; ORun 17; OStart 2; ORun 17].
 
-Lemma ipc_premature_eof :
-  let tr := snd (exec wit_env (init true wit_oracle) wit_ops) in
+Lemma shortcut_premature_eof :
+  let tr := snd (exec wit_env (init false false wit_oracle) wit_ops) in
   Forall errno_ok wit_oracle /\ kernel_ok false monB0 tr /\ ~ eof_after_all_data tr /\
   delivered tr = [(0, 1); (1, 4)].
 Proof.
